@@ -28,10 +28,13 @@ Record variant := mkV {
   d2 : bool;   (* releases are not owner-checked *)
   d3 : bool;   (* DHCPv4 expiry take-over releases the registry lease by address *)
   d4 : bool;   (* a DISCOVER/REQUEST whose address resolution failed is answered from the DHCPv4 lease table *)
-  d5 : bool    (* AAA addresses outside every pool are not recorded *)
+  d5 : bool;   (* AAA addresses outside every pool are not recorded *)
+  d6 : bool    (* component level only (used by the stage-B event mapping in ocaml/C02_run.ml, not by [step]):
+                  a REQUEST that waited for AAA / session creation is ACKed by forwardPendingDHCPv4 /
+                  forwardLatePendingPackets without handleAck, so the session does not record the address *)
 }.
-Definition Repaired : variant := mkV false false false false false.
-Definition Defective : variant := mkV true true true true true.
+Definition Repaired : variant := mkV false false false false false false.
+Definition Defective : variant := mkV true true true true true true.
 Inductive fam := F4 | F6 | FD.
 Definition fam_eqb (a b : fam) : bool :=
   match a, b with F4, F4 | F6, F6 | FD, FD => true | _, _ => false end.
